@@ -570,6 +570,12 @@ class PageTextTemplateFile(PageTemplateFile):
             self.encoding or self.content_encoding or 'utf-8'
         )
 
+    @property
+    def keep_byte_order_mark(self) -> bool:  # type: ignore[override]
+        # The text goes out in the encoding that the file was read with
+        # (unless one is configured): its mark is part of the text.
+        return not self.encoding
+
 
 class Macro:
     __slots__ = "include",
